@@ -58,10 +58,16 @@ MCSend ==
             /\ UNCHANGED <<cfg, phase, ssl, mwi, cparams, eof, faulted, stmts, portals, skip, hq, h>>
             /\ hist' = hist \o <<[k |-> "send", m |-> m, nowait |-> TRUE], [k |-> "send", m |-> SyncMsg]>>
             /\ ver' = IF m.t = "P" THEN ver + 1 ELSE ver
-            /\ pfrom' = IF m.t = "B" THEN Put(pfrom, m.portal, m.stmt) ELSE pfrom
+            \* pfrom also remembers how the portal was bound before (statement name and result formats): binding
+            \* a live portal again and binding a fresh one lead to the same abstract state, but the implementation
+            \* may treat them differently - both histories are replayed
+            /\ pfrom' = IF m.t = "B"
+                        THEN Put(pfrom, m.portal,
+                                 <<m.stmt, IF m.portal \in DOMAIN portals THEN <<pfrom[m.portal][1], portals[m.portal].rfmt>> ELSE <<>>>>)
+                        ELSE pfrom
             /\ tainted' = IF m.t = "B" THEN tainted \ {m.portal}
                           ELSE IF m.t = "C" /\ m.kind = "S"
-                          THEN tainted \cup {p \in DOMAIN pfrom : pfrom[p] = m.name}
+                          THEN tainted \cup {p \in DOMAIN pfrom : pfrom[p][1] = m.name}
                           ELSE tainted
 
 MCServer == ServerStep /\ UNCHANGED <<hist, ver, pfrom, tainted>>
